@@ -125,6 +125,32 @@ def run(ck, F, tier):
         ok2 = full and zero_pred
     ck.inst("Y3", "NotFullRank", ok2, e2.site if e2 else F.body(FN).span,
             "returned exactly when no column j of the whole range 0..m has a non-zero entry in the last echelon row (the scan must cover every column)")
+    # every source column is visited once: the column scan of a row resumes right after the previous pivot column (a cursor that starts
+    # at 0 and is set to s + 1 exactly where a pivot column s is placed)
+    T_ = a.tracer
+    ins_ = [s_ for s_ in T_.sites if s_["kind"] == "contract" and s_["detail"].endswith("SparseMatrix::insert")]
+    scan_ok, why_scan = False, "no placement inside a column scan found"
+    scans = []
+    for s_ in ins_:
+        rl = [l for l in s_["loops"] if l[0] == "range"]
+        if len(rl) >= 2 and rl[1] not in scans:
+            scans.append(rl[1])
+    if len(scans) == 1:
+        _, sv, lo, hi, incl = scans[0][:5]
+        la = single_atom(lo) if isinstance(lo, Poly) else None
+        why_scan = "column scan %r..%r" % (lo, hi)
+        if la is not None and la[0] == "v" and la[1].endswith("@loop") and hi == Cc and not incl:
+            cname = la[1][:-5]
+            inits = [v for k_, v in T_.carried_init.items() if k_.split("#")[0] == cname]
+            sets = [st for st in T_.assign_sites if st[0].split("#")[0] == cname]
+            init_ok = True if not inits else all(v == num(0) or (isinstance(v, Poly) and single_atom(v) is not None and single_atom(v)[1].startswith(cname)) for v in inits)
+            set_ok = len(sets) == 1 and sets[0][1] == var(sv) + num(1) and any(l == scans[0] for l in sets[0][2])
+            # the cursor moves exactly on the pivot path: the same path condition as the placement into the last columns
+            piv = [s_ for s_ in ins_ if isinstance(s_["vals"][2], Poly) and "num_rows" in repr(s_["vals"][2]) and "num_cols" in repr(s_["vals"][2])]
+            same_path = len(piv) >= 1 and set_ok and [(repr(g), p) for g, p in sets[0][3]] == [(repr(g), p) for g, p in piv[0]["guards"]]
+            scan_ok = init_ok and set_ok and same_path
+            why_scan = "columns are scanned from a cursor (%s) to the last column; cursor = s + 1 where the pivot column s is placed (%s), on the pivot path only (%s)" % (cname, set_ok, same_path)
+    ck.inst("Y2", "scan-resumes-after-last-pivot", scan_ok, F.body(FN).span, why_scan)
     # the rank test and the column placement read the *echelon form*: at the top level of the function the statement that reduces the
     # array precedes the statement that can return NotFullRank (directly or through a private helper of the module)
     fbody = F.body(FN)
